@@ -140,9 +140,13 @@ func (fm *Frame) IterateInputs(f func(any)) {
 		wg.Done()
 	}()
 	go func() {
+		verifTraceC18("take-begin", fm.ports[0].Chan)
 		for v := range fm.ports[0].Chan {
+			verifTraceC18("take-end", fm.ports[0].Chan, v)
 			inputs <- v
+			verifTraceC18("take-begin", fm.ports[0].Chan)
 		}
+		verifTraceC18("take-closed", fm.ports[0].Chan)
 		wg.Done()
 	}()
 	go func() {
@@ -159,6 +163,7 @@ func linesToChan(r io.Reader, ch chan<- any) {
 	filein := bufio.NewReader(r)
 	for {
 		line, err := filein.ReadString('\n')
+		verifTraceC18("line-read", r, line, err)
 		if line != "" {
 			ch <- strutil.ChopLineEnding(line)
 		}
